@@ -151,6 +151,11 @@ def gen_budget(rnd, nsources=None, rules='random', views=None, supplemental=None
             if rnd.random() < .6:
                 r.match = rnd.choice(['contains("%s")', 'regex("%s")', 'contains("%s") and amount > 0', 'contains("%s") or startswith("S1")']) % \
                     rnd.choice(WORDS + ['S0', 'S1', 'S2']).split(' ')[0]
+        if rnd.random() < .35:
+            # a transform that matters: strip the per-source prefix, and rules that only match once it is stripped
+            rf.transforms = [('field.description', 'regex_replace(field.description, "^S\\\\d+ ", "")')] + list(rf.transforms)
+            for r in rf.rules[:max(1, len(rf.rules) // 2)]:
+                r.match = 'startswith("%s")' % rnd.choice(WORDS).split(' ')[0]
         if b['supplemental']:
             rf.rules.insert(rnd.randint(0, len(rf.rules)), supplemental_rules(rnd, 1))
         for i, tg in enumerate(['income', 'transfer', 'investment']):
